@@ -75,8 +75,11 @@ func streamFn(seed uint64, idx int) caseT {
 	if sig.name == "contains" && (idx/len(fnSigs))%4 == 3 {
 		// array elements and needles drawn from the comparison universe (objects with null members under
 		// different keys, nested empties, adjacent floats): contains uses deep equality
-		k2 := idx / len(fnSigs) / 4
-		u1, u2 := universe[k2%len(universe)], universe[(k2/len(universe))%len(universe)]
+		u1, u2 := universe[g.r.intn(len(universe))], universe[g.r.intn(len(universe))]
+		if g.r.chance(60) { // both from the containers (objects with null members under different keys, nested empties)
+			first := len(universe) - 21
+			u1, u2 = universe[first+g.r.intn(21)], universe[first+g.r.intn(21)]
+		}
 		args[0], args[1] = literalTok([]interface{}{u1, []interface{}{u1}}), literalTok(u2)
 	}
 	if sig.hasRef() && (idx/len(fnSigs))%5 == 4 {
